@@ -16,6 +16,8 @@ use std::sync::Mutex;
 type Triple = (Vec<u8>, Vec<u8>, u32);
 
 pub struct Global {
+  /// every share point produced in the whole run, whatever thread produced it
+  points: Mutex<HashSet<[u8; 24]>>,
   rnd: Mutex<HashMap<Vec<u8>, Triple>>,
   tag: Mutex<HashMap<Vec<u8>, Triple>>,
   key: Mutex<HashMap<Vec<u8>, Triple>>,
@@ -114,6 +116,20 @@ fn observe(rec: &mut Rec, g: &Global, tr: &Triple, clients: usize, rng: &mut Cha
   let enc: Vec<Vec<u8>> = shares.iter().map(|s| s.to_bytes()).collect();
   let xs: HashSet<[u8; 24]> = enc.iter().filter_map(|b| AdssShare::decode(b)).map(|p| p.s.x).collect();
   rec.ev("share_points_checked");
+  {
+    let mut gp = g.points.lock().unwrap();
+    for x in xs.iter() {
+      if !gp.insert(*x) {
+        drop(gp);
+        rec.violation(
+          "share-point-repeat:across-clients-of-the-run",
+          "a share point produced by this client was already produced by another client of this run (possibly on another thread): evaluation points are not fresh per share".into(),
+          json!({"triple": tj(tr), "x": hex(x)}),
+        );
+        return;
+      }
+    }
+  }
   if xs.len() != shares.len() {
     rec.violation(
       "share-point-repeat",
@@ -121,6 +137,38 @@ fn observe(rec: &mut Rec, g: &Global, tr: &Triple, clients: usize, rng: &mut Cha
       json!({"triple": tj(tr), "shares_hex": enc.iter().take(6).map(|b| hex(b)).collect::<Vec<_>>() }),
     );
     return;
+  }
+  // independent clients are independent threads / processes in practice: the same
+  // triple shared concurrently on three fresh threads must still give distinct points
+  if t <= 8 && clients >= 3 {
+    let hs: Vec<_> = (0..3)
+      .map(|_| {
+        let (m, e) = (m.clone(), e.clone());
+        std::thread::spawn(move || {
+          let mg = MessageGenerator::new(SingleMeasurement::new(&m), t, &e);
+          (0..2).filter_map(|_| mg.share_with_local_randomness().ok().map(|w| w.share.to_bytes())).collect::<Vec<_>>()
+        })
+      })
+      .collect();
+    let mut txs: Vec<[u8; 24]> = Vec::new();
+    for h in hs {
+      if let Ok(v) = h.join() {
+        txs.extend(v.iter().filter_map(|b| AdssShare::decode(b)).map(|p| p.s.x));
+      }
+    }
+    rec.ev("threaded_clients_checked");
+    let distinct: HashSet<[u8; 24]> = txs.iter().cloned().collect();
+    let mut gp = g.points.lock().unwrap();
+    let fresh = txs.iter().all(|x| gp.insert(*x));
+    drop(gp);
+    if distinct.len() != txs.len() || !fresh {
+      rec.violation(
+        "share-point-repeat:across-threads",
+        format!("clients of one triple running on separate threads produced {} distinct evaluation points for {} shares", distinct.len(), txs.len()),
+        json!({"triple": tj(tr)}),
+      );
+      return;
+    }
   }
   // mutually combinable: any t of the mixed Message / WASM shares recover, and
   // the recovered seed re-derives the clients' key
@@ -255,6 +303,7 @@ fn family(rec: &mut Rec, _ctx: &Ctx, idx: u64, rng: &mut ChaCha20Rng, g: &Global
 
 pub fn run(ctx: &Ctx) -> Rec {
   let g = Global {
+    points: Mutex::new(HashSet::new()),
     rnd: Mutex::new(HashMap::new()),
     tag: Mutex::new(HashMap::new()),
     key: Mutex::new(HashMap::new()),
